@@ -4,7 +4,9 @@ import TR.Lemmas.Hedge
 
 Quantification of every theorem: every `max_hedged_attempts ≥ 1` (the builder clamps to ≥ 1),
 every delay function `delay : Nat → Nat` in **microseconds** (fixed, zero, per-attempt, below one
-millisecond or not), every list of operations (any number of concurrent requests; every arrival,
+millisecond or not; and, with `Cfg.never`, durations that cannot be added to an `Instant` at all —
+`Duration::MAX` as a "never again" value — for any attempt: the timer armed with such a delay is never
+due), every list of operations (any number of concurrent requests; every arrival,
 poll, cancellation and time-advance order; every observed order of what simultaneously elapsed
 timers set off — the theorems do not even need the order to be an allowed one), every per-attempt
 script of latencies and outcomes (ok / error / panic / never), every readiness plan of the fresh
@@ -50,6 +52,23 @@ theorem positive_delay_separates (cfg : Cfg) (hmax : 1 ≤ cfg.max) (ops : List 
   have := starts_spaced_indexed cfg hmax ops c cl h n hn
   rw [if_neg h1] at this
   omega
+
+/-- A delay that cannot be added to an `Instant` (`Duration::MAX`, `Duration::from_secs(u64::MAX)`, …:
+`cfg.never n`) is never due: outside parallel mode (`delay 1 ≠ 0`; in parallel mode the later delays are not
+consulted at all) attempt number `n` is not started, nor any later one — the call never has more than the
+attempts `0 … n-1`, whatever the operations and however far time advances. Nothing else changes for such a
+call: every other theorem of this file quantifies over these configurations too — in particular
+`first_success_at_once`/`success_is_queued`: while the timer for attempt `n` sleeps for ever, the call still
+resolves with the first successful response of the attempts it has, at the next poll after it is available. -/
+theorem never_due_not_started (cfg : Cfg) (hmax : 1 ≤ cfg.max) (ops : List Op) (c : Nat) (cl : Call)
+    (h : (c, cl) ∈ (run cfg ops).calls) (h1 : cfg.delay 1 ≠ 0) (n : Nat) (hn : 1 ≤ n)
+    (hv : cfg.never n = true) : cl.attempts.length ≤ n := by
+  have hi := (inv_reachable cfg hmax ops _ h).st
+  rw [length_eq_starts]
+  by_cases hm : 1 < cfg.max
+  · exact hi.nev hm h1 n hn hv
+  · have hb : (starts cl).length ≤ cfg.max := hi.bound
+    omega
 
 /-- No attempt is started in the future, and every observed completion is at or after the instant
 the inner call was due (`startAt + latency`) — the ghost instants mean what they say. -/
@@ -249,5 +268,25 @@ example :
                 .adv 10 [], .poll 1, .adv 10 [.done 1, .rdy 1 1]]
     (lookup (run (fixed 3 10) ops).calls 1).map (fun cl => cl.attempts.map (fun a => (a.idx, a.k, a.startAt, a.out)))
       = some [(2, 1, 20, .err 1), (1, 2, 10, .ok), (0, 0, 0, .ok)] := by decide
+
+/-- "Hedge once after 20 ms, then never again" (`delay_fn`: 20 ms, then `Duration::MAX`; 3 attempts allowed):
+the hedge is started at 20 ms; the third attempt's timer is never due — it is not started at 40 ms, nor a year
+later while the call is still being polled — and the call resolves with the primary's response as soon as it
+is available (150 ms), at that poll. -/
+example :
+    let cfg : Cfg := { max := 3, delay := fun n => if n = 1 then 20000 else (2 ^ 64 - 1) * 1000000 + 999999,
+                       never := fun n => n ≠ 1 }
+    let ops := [Op.arrive 1 [⟨150, .ok⟩, ⟨150, .ok⟩, ⟨150, .ok⟩], .poll 1, .adv 20 [], .poll 1, .adv 20 [], .poll 1]
+    (lookup (run cfg ops).calls 1).map (fun cl => (cl.phase, starts cl)) = some (.latency, [20, 0]) ∧
+    (lookup (run cfg (ops ++ [.adv 31536000000 [0, 1], .poll 1])).calls 1).map (fun cl => starts cl) = some [20, 0] ∧
+    (lookup (run cfg (ops ++ [.adv 110 [0], .poll 1])).calls 1).map (fun cl => (cl.result, starts cl))
+      = some (some (150, .ok 0), [20, 0]) := by decide
+
+/-- … while in parallel mode (first delay zero) the later delays are not consulted: `delay_fn` 0, then
+`Duration::MAX`: all three attempts are started at once. -/
+example :
+    let cfg : Cfg := { max := 3, delay := fun n => if n = 1 then 0 else (2 ^ 64 - 1) * 1000000 + 999999,
+                       never := fun n => n ≠ 1 }
+    (lookup (run cfg [Op.arrive 1 [⟨5, .ok⟩], .poll 1]).calls 1).map (fun cl => starts cl) = some [0, 0, 0] := by decide
 
 end TR.Props.C12
